@@ -12,11 +12,12 @@ from collections import ChainMap, UserDict
 from collections.abc import MutableMapping
 from fractions import Fraction
 import itertools
+import math
 
 import edzed
 
 from .. import vtime
-from ..enc import enc, enc_data
+from ..enc import enc as _enc0, enc_data as _enc_data0
 from ..simrun import Sim
 
 ID = 'C02'
@@ -35,13 +36,16 @@ RULE = ("a sender block (custom SBlock calling set_output from its init, from an
         "prefixes) over the 6 values {1,True,1.0,0,None,()} x all fan-outs (0..3 x 0..3 for SBlocks, 0..3 for "
         "CBlocks) without filters + 3000 random scenarios (length <= 60, filters, shared destinations); thorough: "
         "length 5 for all fan-outs, length 6 for 3 fan-out shapes, + 40000 random scenarios up to length 200. "
+        "NaN: all sequences of length 4 (5) over {the same NaN object, a new NaN object, 1, 1.0} on SBlock/FuncBlock/"
+        "InputExp senders; persistent Input/Counter/InputExp/Timer run TWICE over the same storage (the restored "
+        "output of the second run is the first assignment of that run). "
         "distinct = hash of (lines, trace); non-trivial = at least one event reached a destination")
 ASSUMPTIONS = [
     "destinations accept every event and never make the sender assign again while they are served "
     "(re-entrant destinations are excluded, DESIGN.md section 6)",
     "filters are the scripted ones; they return a MutableMapping (dict, UserDict, ChainMap; any size) with string keys or a non-mapping value",
-    "values: None, bools, ints, floats (exact rationals), strings, flat tuples/lists of these; no NaN, "
-    "no objects with a user-defined __eq__",
+    "values: None, bools, ints, floats (exact rationals), strings, flat tuples/lists of these; "
+    "no objects with a user-defined __eq__; float NaN at top level only (the same object repeatedly and new objects)",
     "UNDEF as an assigned value is exercised on the sequential sender with a direct set_output call only",
 ]
 EXHAUSTIVE = {'quick': False, 'thorough': False}
@@ -49,11 +53,29 @@ EXHAUSTIVE = {'quick': False, 'thorough': False}
 UNDEF = edzed.UNDEF
 SIX = ['i1', 'b1', 'f1/1', 'i0', 'n', 't[]']
 MORE = SIX + ['t[i1]', 's61', 'b0', 'f0/1', 't[b1]', 't[f1/1]', 'i2', 's', 'f1/2', 'l[]', 'l[i1]',
-              't[i1,i2]', 's62', 'i-1', 't[n]']
+              't[i1,i2]', 's62', 'i-1', 't[n]', 'nan', 'nan!']
+NANS = ['nan', 'nan', 'nan!', 'f1/1', 'i1', 'n']      # NaN: the same object repeatedly / a new one / others
 NPROBES = 4
 
 LOG = []
 CTX = {'sender': None}
+
+# float NaN: the one value that is not equal to itself.  The model carries it as a reserved value
+# (lean/EdzedModel/Output.lean `nanVal`), the wire format is the encoding of that reserved string.
+NAN = math.nan                  # ONE object, like a module level "no valid measurement" constant
+NAN_CARRIER = '\x00NaN'
+
+
+def _carrier(v):
+    return NAN_CARRIER if isinstance(v, float) and v != v else v
+
+
+def enc(v):
+    return _enc0(_carrier(v))
+
+
+def enc_data(d):
+    return _enc_data0({k: _carrier(v) for k, v in d.items()})
 
 
 # ---------------------------------------------------------------- values
@@ -79,6 +101,10 @@ def dec(s):
     """wire string -> a NEW Python object (equal values are not identical where Python allows)"""
     if s == 'u':
         return UNDEF
+    if s == 'nan':
+        return NAN                  # the very same object every time
+    if s == 'nan!':
+        return float('nan')         # a new NaN object every time
     if s[0] in 'tl' and s[1:2] == '[':
         body = s[2:-1]
         items = [dec_atom(x) for x in body.split(',')] if body else []
@@ -403,7 +429,7 @@ def random_scenario(rng, maxlen):
             out.append({'dest': rng.randrange(NPROBES), 'filters': fl,
                         'fmode': rng.randrange(36), 'byname': rng.random() < 0.3})
         return out
-    pool = rng.choice([SIX, MORE, MORE, ['i1', 'b1', 'f1/1'], ['i0', 'b0', 'f0/1', 'n', 't[]', 's', 'l[]'],
+    pool = rng.choice([SIX, MORE, MORE, NANS, ['i1', 'b1', 'f1/1'], ['i0', 'b0', 'f0/1', 'n', 't[]', 's', 'l[]'],
                        ['t[i1]', 't[b1]', 't[f1/1]', 'l[i1]', 'i1']])
     n = rng.choice([1, 2, 3, 5, 8, 13, 21, maxlen]) if rng.random() < 0.8 else rng.randint(1, maxlen)
     ops = []
@@ -449,6 +475,10 @@ def scenarios(rng, tier):
                    'ops': ['i1', 'b1', 'i0', 't[]']}
             yield {'kind': 'C', 'on': [plain, ev], 'every': [], 'forms': ['auto', 'auto'], 'via': 'sim',
                    'ops': ['i1', 'b1', 'i0', 't[]']}
+    yield from nan_fixed(tier)
+    yield from persist_fixed(tier)
+    for k in range(nrandom // 6):
+        yield persist_random(rng)
     yield from fsm_fixed(tier)
     for k in range(nrandom // 3):
         yield fsm_random(rng, 40)
@@ -456,8 +486,61 @@ def scenarios(rng, tier):
         yield random_scenario(rng, maxlen)
 
 
+def nan_fixed(tier):
+    """all sequences over {NaN (same object), NaN (new object), 1, 1.0}: NaN after NaN is a change"""
+    n = 4 if tier == 'quick' else 5
+    for seq in itertools.product(['nan', 'nan!', 'i1', 'f1/1'], repeat=n):
+        for a, b in ((1, 1), (2, 0), (0, 2)):
+            yield {'kind': 'S', 'on': mk_events('o', a), 'every': mk_events('e', b), 'forms': ['auto', 'auto'],
+                   'via': ('event', 'direct', 'mixed')[(a + len(seq)) % 3], 'ops': list(seq)}
+        for a in (1, 2):
+            yield {'kind': 'C', 'on': mk_events('o', a), 'every': [], 'forms': ['auto', 'auto'], 'via': 'sim',
+                   'ops': list(seq)}
+    for seq in itertools.product([['put', 'nan'], ['put', 'nan!'], ['put', 'i1'], ['wait', 1500000]], repeat=3):
+        yield fsm_scenario('inputexp', {'duration': 1.0, 'expired': 'n', 'initdef': 'nan'}, seq)
+
+
+# ---- a second run over the same persistent storage: the first assignment comes from the restored state
+
+PERSIST_OPS = {
+    'input': [['put', 'i1'], ['put', 'b1'], ['put', 'i0'], ['put', 'n'], ['put', 's61'], ['put', 'nan']],
+    'counter': [['ev', 'inc'], ['ev', 'dec'], ['put', 'i5'], ['put', 'i0']],
+    'inputexp': [['put', 'i1'], ['put', 'f1/1'], ['put', 'i0'], ['put', 's61']],
+    'timer': [['ev', 'start'], ['ev', 'stop'], ['ev', 'toggle']],
+}
+PERSIST_CFG = {
+    'input': {'initdef': 's64'}, 'counter': {'initdef': 3}, 'inputexp': {'initdef': 'u', 'expired': 'n'}, 'timer': {},
+}
+
+
+def persist_scenario(blk, ops, ops2, non=1, nev=1, on=None, every=None):
+    return {'kind': 'P', 'blk': blk, 'cfg': PERSIST_CFG[blk], 'on': mk_events('o', non) if on is None else on,
+            'every': mk_events('e', nev) if every is None else every, 'forms': ['auto', 'auto'], 'via': 'restore',
+            'ops': [list(o) for o in ops], 'ops2': [list(o) for o in ops2]}
+
+
+def persist_fixed(tier):
+    n = 2 if tier == 'quick' else 3
+    for blk, alpha in PERSIST_OPS.items():
+        for seq in itertools.chain.from_iterable(itertools.product(alpha, repeat=k) for k in range(n + 1)):
+            for a, b in ((1, 1), (1, 0), (0, 1), (2, 2)):
+                yield persist_scenario(blk, seq, alpha[:1], a, b)
+                if len(seq) == n:
+                    yield persist_scenario(blk, seq, [], a, b)
+
+
+def persist_random(rng):
+    blk = rng.choice(list(PERSIST_OPS))
+    alpha = PERSIST_OPS[blk]
+    base = random_scenario(rng, 3)
+    while base['kind'] != 'S':
+        base = random_scenario(rng, 3)
+    return persist_scenario(blk, [rng.choice(alpha) for _ in range(rng.randint(0, 8))],
+                            [rng.choice(alpha) for _ in range(rng.randint(0, 4))], on=base['on'], every=base['every'])
+
+
 def _valid(scn):
-    if scn['kind'] == 'F':
+    if scn['kind'] in ('F', 'P'):
         return True
     return bool(scn['ops']) and scn['ops'][0] != 'u'
 
@@ -498,7 +581,7 @@ def fsm_random(rng, maxlen):
     elif fsm == 'inputexp':
         cfg = {'duration': rng.choice([1.0, 0.25]), 'expired': rng.choice(['n', 'i0', 'b0', 's', 't[]']),
                'initdef': rng.choice(['u', 'i1', 'n', 't[]'])}
-        pool = rng.choice([SIX, MORE, ['i1', 'b1', 'f1/1'], ['i0', 'b0', 'n', 't[]', 's']])
+        pool = rng.choice([SIX, MORE, NANS, ['i1', 'b1', 'f1/1'], ['i0', 'b0', 'n', 't[]', 's']])
         ops = [(['put', rng.choice(pool)] if rng.random() < 0.8 else
                 ['wait', rng.choice([100000, 249999, 250000, 600000, 1000000, 1500000])]) for _ in range(n)]
     else:
@@ -536,8 +619,17 @@ def shrink(scn):
 # ---------------------------------------------------------------- implementation run
 
 def run_impl(scn):
+    if scn['kind'] != 'P':
+        return _run_once(scn, scn['ops'])
+    storage = {}
+    runs = [_run_once(scn, scn['ops'], storage), _run_once(scn, scn['ops2'], storage)]
+    return {'lines': runs[0]['lines'] + runs[1]['lines'], 'trace': runs[0]['trace'] + runs[1]['trace'],
+            'tags': runs[0]['tags'] + [t for t in runs[1]['tags'] if t.startswith('restored')],
+            'nontrivial': runs[1]['nontrivial'], 'runs': runs}
+
+
+def _run_once(scn, ops, storage=None):
     kind = scn['kind']
-    ops = scn['ops']
     assert _valid(scn), 'scenario needs a first value that is not UNDEF'
     name = 'f' if kind == 'C' else 's'
     del LOG[:]
@@ -552,6 +644,20 @@ def run_impl(scn):
             every = make_events(scn['every'], 'e', scn['forms'][1], probes)
             blk = Src(name, first=dec(ops[0]), on_output=on, on_every_output=every)
             CTX['sender'] = blk
+            return blk
+        if kind == 'P':
+            circuit.set_persistent_data(storage)
+            every = make_events(scn['every'], 'e', scn['forms'][1], probes)
+            cfg, kw = scn['cfg'], {'persistent': True, 'on_output': on, 'on_every_output': every}
+            if scn['blk'] == 'input':
+                blk = edzed.Input(name, initdef=dec(cfg['initdef']), **kw)
+            elif scn['blk'] == 'counter':
+                blk = edzed.Counter(name, initdef=cfg['initdef'], **kw)
+            elif scn['blk'] == 'inputexp':
+                blk = edzed.InputExp(name, duration=86400.0, expired=dec(cfg['expired']), initdef=dec(cfg['initdef']), **kw)
+            else:
+                blk = edzed.Timer(name, **kw)
+            CTX['sender'] = mark(blk)
             return blk
         if kind == 'F':
             every = make_events(scn['every'], 'e', scn['forms'][1], probes)
@@ -578,6 +684,7 @@ def run_impl(scn):
         return blk
 
     async def drive(sim, blk):
+        LOG.append(('init_done', blk._output))
         if kind == 'S':
             via = scn.get('via', 'event')
             for i, tok in enumerate(ops[1:]):
@@ -592,7 +699,7 @@ def run_impl(scn):
                     edzed.ExtEvent(blk, 'set').send(v)
                 if i % 7 == 3:
                     await vtime.settle(sim.loop)
-        elif kind == 'F':
+        elif kind in ('F', 'P'):
             for op in ops:
                 if op[0] == 'wait':
                     await vtime.advance_to(sim.loop, sim.loop.now_us + op[1])
@@ -627,7 +734,12 @@ def run_impl(scn):
     trans, ntrans = None, 0
     for rec in log:
         tag = rec[0]
-        if tag == 'tbegin':
+        if tag == 'init_done':
+            if rec[1] is not UNDEF and not [a for a in assignments if not a.get('skip')]:
+                # the block has an output after its initialisation but never assigned it
+                assignments.append({'value': rec[1], 'before': UNDEF, 'recs': [], 'has_value': True,
+                                    'after': rec[1], 'ret': None, 'exc': None, 'phantom_init': True})
+        elif tag == 'tbegin':
             trans = {'before': rec[1], 'n0': len(assignments)}
         elif tag == 'tend':
             _t, ok, val, _state, output, exc = rec
@@ -714,6 +826,13 @@ def run_impl(scn):
     if kind == 'F':
         unchanged = sum(1 for a in assignments if a['before'] == a['value'])
         tags += [f"fsm={scn['fsm']}", 'fsm_unchanged_transitions=' + ('yes' if unchanged else 'no')]
+    nan_rep = any(a['value'] is b['value'] and a['value'] != a['value'] for a, b in zip(assignments, assignments[1:]))
+    nan_any = any(a['value'] != a['value'] for a in assignments)
+    tags.append('nan=' + ('same-object-repeated' if nan_rep else 'yes' if nan_any else 'no'))
+    if kind == 'P':
+        tags += [f"persistent={scn['blk']}"]
+        if storage and any(k.endswith(f"'{name}'>") for k in storage) and ops is scn['ops2']:
+            tags.append('restored_first_output=yes')
     return {'lines': lines, 'trace': trace, 'tags': tags, 'nontrivial': ndeliv > 0,
             'assignments': assignments, 'stray': stray, 'name': name, 'final': info['final'],
             'planned': len(ops), 'transitions': ntrans}
@@ -738,6 +857,25 @@ def _v(clause, what, **sig):
 
 
 def oracle(scn, res):
+    if 'runs' not in res:
+        return oracle_once(scn, res)
+    first, second = res['runs']
+    out_v = oracle_once(scn, first) + oracle_once(scn, second)
+    if not out_v:
+        # the second run starts from the state the first one saved: its first output is the restored one,
+        # announced like any other first output (previous = UNDEF)
+        asg = [a for a in second['assignments'] if not a.get('skip')]
+        def eq(a, b):       # the saved STATE is restored: the new output equals the old one (1 may come back for 1.0)
+            return a == b or (a != a and b != b)
+        if not asg or asg[0]['before'] is not UNDEF or not eq(asg[0]['value'], first['final']):
+            out_v.append(_v('first_output_announced',
+                            f'second run over the same storage: the first run ended with the output '
+                            f'{first["final"]!r}, the first assignment of the second run is '
+                            f'{(asg[0]["before"], asg[0]["value"]) if asg else None!r}'))
+    return out_v
+
+
+def oracle_once(scn, res):
     """Recompute what the property promises from the list of assigned values alone."""
     out_v = []
     kind = scn['kind']
@@ -768,6 +906,16 @@ def oracle(scn, res):
         v = a['value']
         where = f'assignment #{k} ({enc(v)})'
         recs = [r for r in a['recs'] if r[0] != 'fr']
+        if a.get('phantom_init'):
+            out_v.append(_v('first_output_announced',
+                            f'after its initialisation the block has the output {v!r} but no assignment was made '
+                            f'(no set_output call): the change UNDEF -> {v!r} was not announced to its '
+                            f'{len(on)} on_output / {len(every)} on_every_output event(s)'))
+            break
+        if k == 0 and a['before'] is not UNDEF:
+            out_v.append(_v('first_output_announced', f'{where}: the first assignment of the run starts from '
+                            f'{a["before"]!r}, not from UNDEF'))
+            break
         if a.get('phantom') and (every or not (cur == v)):
             out_v.append(_v('every_output_one_per_assignment',
                             f'{where}: the FSM made an accepted transition to a state whose output is {v!r} but did '
